@@ -106,6 +106,15 @@ def cases(tier):
             yield Case("vk:nx=%d:nc=%d:%s" % (nx, nc, tag), {"variant": "vk", "nx": nx, "depth": nc, "atm": atm}, True)
         for nx, f in ((5, 2), (9, 4)):
             yield Case("fried:nx=%d:f=%d:%s" % (nx, f, tag), {"variant": "fried", "nx": nx, "depth": f, "atm": atm}, True)
+    # the ensemble over INTEGER seeds: every default_rng(<int>) the library makes restarts the same stream
+    for variant, nx, depth in (("vk", 4, 2), ("vk", 6, 1), ("fried", 3, 2), ("fried", 5, 1)):
+        yield Case("intseed:%s:nx=%d:depth=%d" % (variant, nx, depth), {"variant": variant, "nx": nx, "depth": depth, "intseed": True,
+                                                                          "atm": ATMOSPHERES[0]}, True)
+    # long extrusions: step k of a long-lived screen against the FIRST step of a fresh screen started from the same
+    # working array and given the same noise (the law of the new row depends on the current stencil values only)
+    for variant, nx, depth in (("vk", 3, 2), ("vk", 5, 2), ("vk", 8, 3), ("fried", 3, 1), ("fried", 5, 2), ("fried", 6, 1)):
+        yield Case("extrude:%s:nx=%d:depth=%d" % (variant, nx, depth), {"variant": variant, "nx": nx, "depth": depth, "extrude": True,
+                                                                          "atm": ATMOSPHERES[0]}, True)
     for nx, nc in (((350, 2),) if tier == "quick" else ((350, 2), (520, 1), (300, 3))):
         atm = (0.1, 0.2, 25.0)
         yield Case("vk:big:nx=%d:nc=%d" % (nx, nc), {"variant": "vk", "nx": nx, "depth": nc, "atm": atm, "big": True}, True)
@@ -118,6 +127,104 @@ def cases(tier):
             for nc in (2, 3):
                 yield Case("vk:ill:nx=%d:nc=%d:%s" % (nx, nc, tag), {"variant": "vk", "nx": nx, "depth": nc, "atm": atm}, False)
         yield Case("fried:ill:nx=9:f=2:%s" % tag, {"variant": "fried", "nx": 9, "depth": 2, "atm": atm}, False)
+
+
+def _evaluate_extrude(p):
+    from aotools.turbulence import infinitephasescreen as ips
+    o = Out()
+    variant, nx, depth = p["variant"], p["nx"], p["depth"]
+    ps_, r0, L0 = p["atm"]
+
+    def make():
+        if variant == "vk":
+            return ips.PhaseScreenVonKarman(nx, ps_, r0, L0, random_seed=1, n_columns=depth)
+        return ips.PhaseScreenKolmogorov(nx, ps_, r0, L0, random_seed=1, stencil_length_factor=depth)
+
+    scr = make()
+    rows, cols = scr._scrn.shape
+    steps = 3 * rows + 5
+    worst_new = worst_old = 0.0
+    scale = max(_maxabs(scr._scrn), 1e-300)
+    for k in range(steps):
+        Z = numpy.array(scr._scrn, dtype=float)
+        b = ((numpy.arange(cols) * 7 + 3 * k) % 11 - 5.0) / 4.0
+        scr._R = SeqGenerator(b)
+        scr.add_row()
+        twin = make()
+        twin._scrn = Z.copy()
+        twin._R = SeqGenerator(b)
+        twin.add_row()
+        o.stat("lib_calls", 3)
+        got, want = numpy.asarray(scr._scrn, dtype=float), numpy.asarray(twin._scrn, dtype=float)
+        if got.shape != want.shape or got.shape != (rows, cols):
+            o.check("long_lived_screen_steps_like_a_fresh_one", False, sub="step=%d" % (k + 1), detail="working array %s" % (got.shape,))
+            return o
+        worst_new = max(worst_new, _maxabs(got[0] - want[0]) / scale)
+        worst_old = max(worst_old, _maxabs(got[1:] - Z[:-1]) / scale)
+        if not (_maxabs(got[0] - want[0]) / scale <= 1e-10 and _maxabs(got[1:] - Z[:-1]) == 0.0):
+            o.check("long_lived_screen_steps_like_a_fresh_one", False, sub="step=%d" % (k + 1),
+                    measure=max(_maxabs(got[0] - want[0]) / scale, _maxabs(got[1:] - Z[:-1]) / scale), tol=1e-10,
+                    detail="step %d of one object differs from the first step of a fresh object started from the same working array" % (k + 1))
+            return o
+    o.check("long_lived_screen_steps_like_a_fresh_one", True, measure=max(worst_new, worst_old), tol=1e-10, n=steps)
+    return o
+
+
+def _evaluate_intseed(p):
+    """'b is a fresh, independent unit-normal vector' for a screen made with an integer seed.  With an integer seed
+    every numpy.random.default_rng(seed) call inside the library restarts the same stream z of independent unit
+    normals; that is modelled exactly (default_rng returns, for a non-Generator argument, a generator replaying z).
+    The initial screen and the rows added afterwards are then linear in z; their complete operators are extracted
+    from the unit vectors of z.  The innovation of every new row (new row minus the part predicted from the screen
+    before the step, A Z, with A extracted behaviourally) must be uncorrelated with the initial screen and with the
+    earlier innovations, and have the covariance B B^T of the injected-generator case."""
+    from aotools.turbulence import infinitephasescreen as ips
+    o = Out()
+    variant, nx, depth = p["variant"], p["nx"], p["depth"]
+    ps_, r0, L0 = p["atm"]
+    steps = 3
+
+    def make(seed):
+        if variant == "vk":
+            return ips.PhaseScreenVonKarman(nx, ps_, r0, L0, random_seed=seed, n_columns=depth)
+        return ips.PhaseScreenKolmogorov(nx, ps_, r0, L0, random_seed=seed, stencil_length_factor=depth)
+
+    def run(z, int_seed):
+        real = numpy.random.default_rng
+
+        def fake(seed=None):
+            if isinstance(seed, numpy.random.Generator):
+                return seed
+            return SeqGenerator(z)
+        if int_seed:
+            numpy.random.default_rng = fake
+        try:
+            scr = make(4242 if int_seed else SeqGenerator(z))
+            out = [numpy.array(scr._scrn, dtype=float).ravel()]
+            for _ in range(steps):
+                scr.add_row()
+                out.append(numpy.array(scr._scrn[0], dtype=float).ravel())
+            return out
+        finally:
+            numpy.random.default_rng = real
+
+    probe = make(SeqGenerator(numpy.zeros(1 << 16)))
+    nz = sum(int(numpy.prod(c)) if c else 1 for c in probe._R.calls) + steps * probe.nx_size
+    o.stat("lib_calls", 1)
+    eye = numpy.eye(nz)
+    ops = {}
+    for mode in (True, False):
+        cols = [run(eye[k], mode) for k in range(nz)]
+        o.stat("lib_calls", nz * (1 + steps))
+        ops[mode] = [numpy.array([c[i] for c in cols]).T for i in range(steps + 1)]       # [T_init, T_row1, ...]
+    scale = float(numpy.max(numpy.abs(ops[False][0] @ ops[False][0].T)))
+    for i in range(steps + 1):
+        for j in range(i + 1):
+            Ci = ops[True][i] @ ops[True][j].T
+            Cg = ops[False][i] @ ops[False][j].T
+            o.close("integer_seeded_ensemble_has_the_same_covariance", _maxabs(Ci - Cg) / scale, 1e-9,
+                    sub="%s x %s" % ("initial" if i == 0 else "row%d" % i, "initial" if j == 0 else "row%d" % j))
+    return o
 
 
 def _evaluate_big(p):
@@ -202,6 +309,10 @@ class _Prober(object):
 
 
 def evaluate(p):
+    if p.get("intseed"):
+        return _evaluate_intseed(p)
+    if p.get("extrude"):
+        return _evaluate_extrude(p)
     if p.get("big"):
         return _evaluate_big(p)
     from scipy import linalg
